@@ -2,6 +2,8 @@ import SvgVerif.Model.Proto
 import SvgVerif.Model.Poly
 import SvgVerif.Model.PathParam
 import SvgVerif.Model.PathOps
+import SvgVerif.Model.PathState
+import SvgVerif.Model.CubicCache
 /-! Correspondence driver: one operation per input line, one canonical result per
 output line.  Run as `lake env lean --run Driver.lean < ops.txt`.  The Python
 harness feeds the same operations to the real svgpathtools code and diffs. -/
@@ -13,6 +15,83 @@ def showIdxT : Option (Nat × Rat) → String
 
 def rtol : Rat := 1 / 100000
 def atol : Rat := 1 / 100000000
+
+/-! C16: one line = one history; ops separated by `;` -/
+open SvgVerif.Model.PathState in
+def parseSegs (ws : List String) : Option (List (Seg Int)) :=
+  (ws.mapM parseInt? >>= pairUp).map (fun l => l.map fun (a, b) => ⟨a, b⟩)
+
+open SvgVerif.Model.PathState in
+def parseOp (ws : List String) : Option (Op Int Rat Nat) :=
+  match ws with
+  | ["set", i, a, b] => do pure (.setItem (← parseInt? i) ⟨← parseInt? a, ← parseInt? b⟩)
+  | "slice" :: a :: b :: rest => do pure (.setSlice (← parseInt? a) (← parseInt? b) (← parseSegs rest))
+  | ["del", i] => do pure (.delItem (← parseInt? i))
+  | ["ins", i, a, b] => do pure (.insert (← parseInt? i) ⟨← parseInt? a, ← parseInt? b⟩)
+  | ["app", a, b] => do pure (.append ⟨← parseInt? a, ← parseInt? b⟩)
+  | "ext" :: rest => do pure (.extend (← parseSegs rest))
+  | ["pop", i] => do pure (.pop (← parseInt? i))
+  | ["rev"] => some .reverse
+  | ["sstart", p] => do pure (.setStart (← parseInt? p))
+  | ["send", p] => do pure (.setEnd (← parseInt? p))
+  | ["qlen"] => some .qLength
+  | ["qlenat", a] => do pure (.qLengthAt (← a.toNat?))
+  | ["qT2t", T] => do pure (.qT2t (← parseRat? T))
+  | ["qpt", T] => do pure (.qPoint (← parseRat? T))
+  | ["qstart"] => some .qStart
+  | ["qend"] => some .qEnd
+  | _ => none
+
+open SvgVerif.Model.PathState in
+def showOut : Out Int Rat → String
+  | .unit => "u"
+  | .seg s => s!"seg {s.start} {s.stop}"
+  | .len l => "len " ++ showRat l
+  | .idxT none => "it none"
+  | .idxT (some (k, t)) => s!"it {k} {showRat t}"
+  | .pt none => "pt none"
+  | .pt (some p) => s!"pt {p}"
+  | .emptyLast => "it -1 1"
+  | .indexError => "ie"
+
+open SvgVerif.Model.PathState in
+def runHistory (buggySetter : Bool) (line : List String) : String :=
+  let parts := (" ".intercalate line).splitOn ";" |>.map words
+  match parts with
+  | ("init" :: segs) :: ops =>
+    match parseSegs segs, ops.mapM parseOp with
+    | some segs, some ops =>
+      let len1 : Nat → Seg Int → Rat := fun a s => ((s.stop - s.start).natAbs : Nat) * (1 + 1 / (10 : Rat) ^ a)
+      let falsy1 : Int → Bool := fun p => p == 0
+      let (_, outs) := ops.foldl (fun (acc : PState Int Rat Nat × List String) op =>
+          let (s, os) := acc
+          let (s1, o) := match buggySetter, op with
+            | true, .setStart p => (setStartBuggy s p, Out.unit)
+            | _, _ => step len1 12 falsy1 s op
+          -- after every operation also report the segment list, so drift is caught at once
+          (s1, (showOut o ++ " [" ++ " ".intercalate (s1.segs.map fun g => s!"{g.start},{g.stop}") ++ "]") :: os))
+        (fresh segs, [])
+      " ; ".intercalate outs.reverse
+    | _, _ => "bad-args"
+  | _ => "bad-args"
+
+/-! C16: CubicBezier length cache.  ops: `req <bp label> <error> <min_depth>` separated by `;`.
+The integrator is the identity on its request, so each answer shows which request computed it. -/
+open SvgVerif.Model.CubicCache in
+def runCubCache (buggy : Bool) (line : List String) : String :=
+  let parts := (" ".intercalate line).splitOn ";" |>.map words
+  let compute : Nat → Rat → Nat → (Nat × Rat × Nat) := fun b e d => (b, e, d)
+  let (_, outs) := parts.foldl (fun (acc : Option (CubCache Nat Rat Nat (Nat × Rat × Nat)) × List String) ws =>
+      let (c, os) := acc
+      match ws with
+      | ["req", b, e, d] =>
+        match b.toNat?, parseRat? e, d.toNat? with
+        | some b, some e, some d =>
+          let (v, c') := if buggy then cubicLengthBuggy compute c b e d else cubicLength compute c b e d
+          (c', s!"{v.1}:{showRat v.2.1}:{v.2.2}" :: os)
+        | _, _, _ => (c, "bad" :: os)
+      | _ => (c, "bad" :: os)) (none, [])
+  " ; ".intercalate outs.reverse
 
 def handle (cmd : String) (args : List String) : String :=
   match cmd with
@@ -101,6 +180,10 @@ def handle (cmd : String) (args : List String) : String :=
       let starts := PathOps.rot1 (res.map (·.1))
       " ".intercalate ((res.zip starts).map fun (s, nx) => if s.2 = nx then "1" else "0")
     | none => "bad-args"
+  | "cubcache" => runCubCache false args
+  | "cubcache_buggy" => runCubCache true args
+  | "hist" => runHistory false args
+  | "hist_buggy_setter" => runHistory true args
   | _ => "bad-op"
 
 partial def loop (h : IO.FS.Stream) (out : IO.FS.Stream) : IO Unit := do
